@@ -133,6 +133,32 @@ def token_wait_interruptible(ctx, rule):
                detail="" if ok else "the limiter block is inside the shielded scope: a caller waiting for a token cannot be interrupted", by=("nesting",))
 
 
+def cancellable_alias(ctx, rule):
+    """(shared with C03) to_thread.run_sync(cancellable=...) is taken over into abandon_on_cancel before the backend call"""
+    tt = ctx.fn("run_sync", TT)
+    # the documented alias: `cancellable=` overrides `abandon_on_cancel` whenever it is given (a dropped assignment would make the
+    # wait shielded although the caller asked for an abandonable call)
+    pnames_tt = [a_.arg for a_ in tt.node.args.kwonlyargs]
+    if "cancellable" in pnames_tt:
+        def step_al(st, e, c):
+            return True if (e == "alias" and not c.is_exc) else st
+
+        def at_exit_al(kind, st, facts):
+            return None
+
+        def step_call(st, e, c):
+            if e == "alias" and not c.is_exc:
+                return True
+            if e == "call" and not st and F("cancellable is None") not in c.facts_before:
+                return Bad("the backend is called with abandon_on_cancel although `cancellable` may have been given and was not taken over "
+                           "(to_thread.run_sync(fn, cancellable=True) would wait under the internal shield)")
+            return st
+
+        ctx.paths(rule, tt, [("alias", "abandon_on_cancel = cancellable"), ("call", "await get_async_backend().run_sync_in_worker_thread($*A)")],
+                  step_call, False, None, instance="the deprecated `cancellable=` alias is taken over into abandon_on_cancel before the backend call")
+
+
+
 def check(ctx):
     rs = ctx.fn("AsyncIOBackend.run_sync_in_worker_thread", A)
     fn = rs.node
@@ -437,6 +463,8 @@ def check(ctx):
             and kws.get("abandon_on_cancel") == "abandon_on_cancel" and kws.get("limiter") == "limiter"
     ctx.ob("R14-e", tt, "to_thread.run_sync forwards func, args, abandon_on_cancel and limiter", okd,
            detail="" if okd else "to_thread.run_sync does not forward (func, args, abandon_on_cancel=abandon_on_cancel, limiter=limiter)", by=("argument forwarding",))
+
+    cancellable_alias(ctx, "R14-e")
 
     loop_entry_points(ctx, "R14-f")
 
